@@ -110,6 +110,9 @@ func devCmd(argv []string) {
 			fmt.Printf("  %s %-8s %5dms %-10s %s  %s\n", mark, verdict, o.Result.Ms, o.Result.Backend, o.Name, o.Pos)
 			if !ok && *verbose {
 				fmt.Printf("       %s\n", o.Desc)
+				if verdict != "sat" && verdict != "timeout" {
+					fmt.Printf("       solver: %s\n", trunc(strings.ReplaceAll(o.Result.Output, "\n", " | "), 300))
+				}
 			}
 			if *dump != "" && strings.Contains(o.Name, *dump) {
 				os.WriteFile("/tmp/govc_dump.smt2", []byte(fr.VC.Query(prelude, o)), 0o644)
